@@ -372,6 +372,7 @@ def execute(sc):
         # ---- build ---------------------------------------------------------------
         flows = [M.build_flow(s) for s in sc["flows"]]
         states0 = [f.get_state() for f in flows]
+        views0 = [M.attr_view(f) for f in flows]
         for s, f in zip(sc["flows"], flows):
             probe("type_" + s["kind"])
             names = {e["f"] for e in s.get("edits", [])}
@@ -449,6 +450,14 @@ def execute(sc):
                         key["wrote"] = "zero"
                     viol("roundtrip_mismatch", key,
                          f"flow #{i} ({sc['flows'][i]['kind']}): state differs at {d}: wrote {M.short(va)}, read {M.short(vg)}")
+                else:
+                    # what a user of the loaded flow sees, independent of get_state()
+                    vg = M.attr_view(g)
+                    if M.canon_loose(views0[i]) != M.canon_loose(vg):
+                        d = M.first_diff(views0[i], vg, cf=M.canon_loose)
+                        viol("roundtrip_mismatch", {"field": "attr:" + str(d), "type": sc["flows"][i]["kind"]},
+                             f"flow #{i} ({sc['flows'][i]['kind']}): get_state() round-trips but attribute {d} of the "
+                             f"loaded flow differs from the saved one")
             # order
             if [g.id for g in got_flows] != [f.id for f in flows][:len(got_flows)]:
                 viol("roundtrip_mismatch", {"field": "order"}, "flows came back in a different order")
